@@ -1,6 +1,7 @@
 SPECIFICATION SimSpec
 CONSTANTS
   Tier = "full"
+  EnvDefects = {}
   Pools = {}
   MaxLen = 12
   MaxWire = 3
